@@ -505,6 +505,10 @@ pub fn plan(property: &str, tier: Tier, seed: u64) -> Option<Plan> {
             crate::engines::codec::units("C07", !q, seed),
             "Dictionary-coded regions. A case = up to 60 operations over four CodecRegion<DictionaryCodec> slots: push / push n copies / push n distinct strings (up to 1430, crossing the heavy-hitter summary's compaction at 1024) / merge_regions from 0..3 arbitrary slots (repeats and the target's own ancestors allowed, any number of generations) / clear. Strings: empty, pool re-use, prefixes and extensions of pool entries, single small bytes (the first tags that get assigned), strings starting with a small byte or 254/255, random bytes of length 1..20. Oracles against a reference model of the source statistics: every push that returns reads back exactly its bytes, now and after every later operation; a push may panic (refusal) only if the region is merged, the string is non-empty and its first byte does not occur in the source statistics; stored bytes per push (delta of the used bytes reported by heap_size) never exceed the length, equal the length on default/cleared regions, and equal 1 for strings that certainly dominate (exact regime, <= 500 distinct strings: fewer than F other non-empty strings have a count >= theirs, F = number of unobserved first bytes; lossy regime: the string holds >= 3/4 of every source's pushes); a merged region starts empty. After a permitted refusal the region is rebuilt from its recipe. Non-trivial: the case stored at least one dictionary hit (1 byte for a longer string) and at least one literal in a merged region.".to_string(),
         ),
+        "C14" => (
+            crate::engines::laws::units("C14", tier.pick(300, 3000), seed),
+            "IntoOwned laws on every catalogued composition: a case = a source region holding 1..5 generated values, a chosen item x, an arbitrary generated prior value t for the clone_onto target (re-using one of the items a quarter of the time), and a destination region with 0..3 prior items. Checked: into_owned(x) equals the pushed value; borrow_as(&into_owned(x)) passes the deep read oracle (len, get, iteration, into_owned); reborrow(x) passes it; clone_onto from the region-backed and from the owned-borrowed item leaves t equal to the pushed value whatever t held; pushing x and borrow_as(&owned) into the destination region yields an item that passes the deep oracle, leaves the destination's earlier items and the source unchanged. Non-trivial: the prior target value differs from the item's value (longer/shorter/other variant).".to_string(),
+        ),
         "C05" => (
             crate::engines::index::units("C05", !q, seed, false),
             "Index containers. (a) bounded-exhaustive: every sequence of push(x)/clear over the alphabet {0,1,2,3,4,6,u32::MAX,u32::MAX+1,2^63,usize::MAX,clear} up to length 6 (quick) / 7 (thorough; 9 on a 6-symbol sub-alphabet) applied to Stride, IndexList, IndexOptimized (Vec<usize> to length 5), explored depth-first with cloned state, compared after every op with a Vec<usize> reference (len, is_empty, index(i) for all i, iteration) and, for Stride, with a u128 acceptor of the documented pattern (accept/reject, state unchanged on reject); any panic is a violation. (b) proptest tapes decoded into op lists built from arithmetic runs, repeat runs, boundary values, clear, extend, reserve, serde round trip, clone/clone_from (<= 2000 elements). Non-trivial: >= 3 pushes and the sequence left the pure stride pattern, or a push was rejected, or a clear was followed by reuse; enumerated sequences are distinct by construction, random ones are counted by hash.".to_string(),
